@@ -12,6 +12,9 @@ with C.Lock():
     import k6check
     ok3, msgs3 = k6check.regen_capi()
     print("\n".join(msgs3))
+    import k3check
+    ok4, msgs4 = k3check.regen_memorder()
+    print("\n".join(msgs4))
     ok2, out, errors, dt = C.lake_build(["Cuckoo", "cuckoo-driver"])
     print("lake build: %s in %.0fs" % ("ok" if ok2 else "FAILED", dt))
     if not ok2:
@@ -32,6 +35,7 @@ with cf.ThreadPoolExecutor(max_workers=15) as ex:
     futs += [ex.submit(k3.harness_for, *c) for c in k3.CONFIGS_QUICK]
     futs += [ex.submit(k5.harness_for, *c) for c in k5.CONFIGS_QUICK]
     futs.append(ex.submit(k6.harness))
+    futs.append(ex.submit(C.build_harness, "k4-tsan", "k4_tsan.cc", ["-O1", "-g", "-fsanitize=thread", "-U" + C.GUARD], "clang++-14"))
     futs.append(ex.submit(C.build_harness, "k1_arith", "k1_arith.cc", ["-O1"], "g++", ["translate/arith_shim.cc"]))
     bad = [f.result()[2][-400:] for f in futs if not f.result()[0]]
 print("harnesses built: %d, failed: %d" % (len(futs), len(bad)))
